@@ -364,7 +364,7 @@ def check(case: dict) -> dict:
         classes.append('exception-without-loss')
 
     # ---- the receiving peer's table (independent application order check)
-    if sum(len(m) for m in msgs) <= 400000 and not any(c.startswith('tolerated:decode') or c.startswith('tolerated:frame') for c in classes):
+    if sum(len(m) for m in msgs) <= 400000 and not any(c.startswith(('tolerated:decode', 'tolerated:frame')) for c in classes):
         table = codec.PeerTable(asn4, ap)
         for m in msgs:
             table.apply(m[19:])
@@ -470,23 +470,20 @@ def diagnose(neg, attributes, ann: list, wd: list, include_withdraw: bool, neg_f
         return all(model.route_key(r) in sa for r, _ in a_part if fit[model.route_key(r)]) and all(model.route_key(r) in sw for r, _ in w_part)
 
     fitting = [(r, o) for r, o in ann if fit[model.route_key(r)]]
-    if len(fitting) != len(ann):
-        if complete(fitting, wd):
-            return 'route-that-cannot-fit-takes-others-with-it'
+    if len(fitting) != len(ann) and complete(fitting, wd):
+        return 'route-that-cannot-fit-takes-others-with-it'
     ann = fitting
     # a withdrawal needs no attribute, yet it is budgeted in the room the attributes leave
     roomy = [(r, o) for r, o in wd if r['size'] + (0 if fam(r) == (1, 1) else 6) <= room]
-    if len(roomy) != len(wd):
-        if complete(ann, roomy):
-            return 'withdrawals-need-room-after-attributes'
+    if len(roomy) != len(wd) and complete(ann, roomy):
+        return 'withdrawals-need-room-after-attributes'
     wd = roomy
     v4a = [(r, o) for r, o in ann if fam(r) == (1, 1)]
     v4w = [(r, o) for r, o in wd if fam(r) == (1, 1)]
     mpa = [(r, o) for r, o in ann if fam(r) != (1, 1)]
     mpw = [(r, o) for r, o in wd if fam(r) != (1, 1)]
-    if (v4a or v4w) and (mpa or mpw):
-        if complete(v4a, v4w) and complete(mpa, mpw):
-            return 'ipv4-leftover-eats-the-mp-budget'
+    if (v4a or v4w) and (mpa or mpw) and complete(v4a, v4w) and complete(mpa, mpw):
+        return 'ipv4-leftover-eats-the-mp-budget'
     if not complete(v4a, v4w):
         return 'ipv4-unicast-alone'
     families = sorted({fam(r) for r, _ in mpa + mpw})
@@ -503,4 +500,4 @@ def diagnose(neg, attributes, ann: list, wd: list, include_withdraw: bool, neg_f
 
 
 QUICK_SHARDS = 4
-ENGINES = [Engine('collections', model.cases, check, quick=400, thorough=4000, batch=80, fixed_cases=model.boundary_sweep)]
+ENGINES = [Engine('collections', model.cases, check, quick=300, thorough=4000, batch=60, fixed_cases=model.fixed_cases)]
